@@ -18,6 +18,9 @@ def main():
     ap.add_argument("--replay", default=None)
     ap.add_argument("--no-proof", action="store_true", help="skip layer P (debugging only)")
     a = ap.parse_args()
+    if a.no_proof and "VERIF_OUT" not in os.environ:
+        # debugging runs never touch the registered evidence/ and replays/ directories
+        lib.OUT = os.path.join(lib.BUILD, "noproof")
     seed = int(os.environ.get("VERIF_SEED", "0") or 0)
     os.environ.setdefault("PYTHONHASHSEED", "0")
     lib.setup_impl_path()
